@@ -241,7 +241,11 @@ func cmdCheck(args []string) int {
 			}
 			seenSig[k] = true
 			vcases = append(vcases, v)
-			cases = append(cases, nativeCase{Harness: v.Harness, Shape: v.Shape, Assign: v.Assign})
+			nc := nativeCase{Harness: v.Harness, Shape: v.Shape, Assign: v.Assign}
+			if v.Threaded {
+				nc.Repeat = 400
+			}
+			cases = append(cases, nc)
 		}
 		// stack-overflow candidates crash the native process: run each alone
 		var ovf []*Violation
@@ -268,6 +272,7 @@ func cmdCheck(args []string) int {
 				inconclusive = append(inconclusive, fmt.Sprintf("recursion bound exceeded but no native stack overflow: %s shape %d %s assign %v", v.Harness, v.Shape, v.Detail, v.Assign))
 			}
 		}
+		var nativeViol []*Violation
 		results, nerr := runNative(env, cases, hs)
 		if nerr != nil {
 			fmt.Fprintln(os.Stderr, "INCONCLUSIVE: native run failed:", nerr)
@@ -279,6 +284,17 @@ func cmdCheck(args []string) int {
 				ok := !r.Assume && r.Fail == "" && r.Panic == "" && len(r.Missing) == 0 && equalStrs(r.Observes, want.Observes)
 				if ok {
 					ev.validated++
+				} else if want.Threaded && (r.Fail != "" || r.Panic != "") && !r.Assume && len(r.Missing) == 0 {
+					// a goroutine harness failed on the real build under the Go scheduler
+					// (a schedule outside the explored preemption bound): a violation
+					// shown by the real code itself
+					label := r.Fail
+					if label == "" {
+						label = "panic"
+					}
+					nv := &Violation{Harness: want.Harness, Shape: want.Shape, Label: label, Signature: label + "/native-schedule", Assign: want.Assign,
+						Detail: "failed natively under the Go scheduler: " + r.Fail + r.Panic, Threaded: true, Confirmed: "native"}
+					nativeViol = append(nativeViol, nv)
 				} else {
 					inconclusive = append(inconclusive, fmt.Sprintf("encoder mismatch on %s shape %d assign %v: native observes=%v fail=%q panic=%q assume=%v missing=%v; interpreter observes=%v",
 						want.Harness, want.Shape, want.Assign, r.Observes, r.Fail, r.Panic, r.Assume, r.Missing, want.Observes))
@@ -298,7 +314,7 @@ func cmdCheck(args []string) int {
 			}
 		}
 		// report
-		for _, v := range append(vcases, ovf...) {
+		for _, v := range append(append(vcases, ovf...), nativeViol...) {
 			if v.Confirmed != "native" {
 				continue
 			}
@@ -451,6 +467,7 @@ type nativeCase struct {
 	Harness string            `json:"harness"`
 	Shape   int               `json:"shape"`
 	Assign  map[string]uint64 `json:"assign"`
+	Repeat  int               `json:"repeat,omitempty"` // threaded cases: run until the failure shows, at most this often
 }
 
 type nativeResult struct {
@@ -549,7 +566,11 @@ func cmdReplay(args []string) int {
 		return 2
 	}
 	env.overlayFiles = files
-	res, err := runNative(env, []nativeCase{{Harness: v.Harness, Shape: v.Shape, Assign: v.Assign}}, nil)
+	rc := nativeCase{Harness: v.Harness, Shape: v.Shape, Assign: v.Assign}
+	if v.Threaded {
+		rc.Repeat = 400
+	}
+	res, err := runNative(env, []nativeCase{rc}, nil)
 	if err != nil {
 		fmt.Fprintln(os.Stderr, "native run failed:", err)
 		return 2
